@@ -55,12 +55,19 @@ func loadKnown() []KnownFinding {
 }
 
 type runOut struct {
+	wall float64
 	def *HarnessDef
 	res *HarnessResult
 	err error
 }
 
-func runSub(def *HarnessDef, spec *HarnessSpec, tmp string) runOut {
+func runSub(def *HarnessDef, spec *HarnessSpec, tmp string) (ro runOut) {
+	t0 := time.Now()
+	defer func() { ro.wall = time.Since(t0).Seconds() }()
+	return runSub0(def, spec, tmp)
+}
+
+func runSub0(def *HarnessDef, spec *HarnessSpec, tmp string) runOut {
 	sp := filepath.Join(tmp, def.ID+"_"+spec.Name+".spec.json")
 	op := filepath.Join(tmp, def.ID+"_"+spec.Name+".out.json")
 	if err := writeJSON(sp, spec); err != nil {
@@ -218,6 +225,10 @@ func cmdCheck(args []string) int {
 		}
 		r := ro.res
 		summ["status"] = r.Status
+		summ["wall_s"] = ro.wall
+		if os.Getenv("GOSMT_TIMES") != "" {
+			fmt.Printf("  [time] %-40s %-13s wall=%.0fs solver=%.0fs queries=%d obligations=%d\n", r.Name, r.Status, ro.wall, r.SolverS, r.Queries, len(r.Obs))
+		}
 		summ["queries"] = r.Queries
 		summ["solver_time_s"] = r.SolverS
 		summ["encode_time_s"] = r.ExecS
